@@ -24,69 +24,9 @@ mod proofs {
   /// contract of the callee: tracing an object reference marks that object (transitivity is the induction, O-05.3)
   fn shallow(o: &ObjectRef) { o.mark(); }
 
-  #[kani::proof]
-  fn dbg_a() { let child = fresh_box(); let o = child.degrade(); o.mark(); assert!(child.marked()); }
-  #[kani::proof]
-  #[kani::stub(<ObjectRef as Trace>::trace, shallow)]
-  fn dbg_b() { let child = fresh_box(); let o = child.degrade(); o.trace(); assert!(child.marked()); }
-  #[kani::proof]
-  #[kani::stub(<ObjectRef as Trace>::trace, shallow)]
-  fn dbg_c() { let child = fresh_box(); let v = Value::from(child); assert!(v.is_obj()); v.trace(); assert!(child.marked()); }
-  #[kani::proof]
-  fn dbg_d() { let child = fresh_box(); let v = Value::from(child); v.trace(); assert!(child.marked()); }
-
-  // ---- O-05.1: a kind's trace body reaches EVERY child ----
-  #[kani::proof]
-  #[kani::stub(<ObjectRef as Trace>::trace, shallow)]
-  fn o05_1_lybox() {
-    let child = fresh_box();
-    let parent = LyBox::new(Value::from(child));
-    assert!(!child.marked());
-    parent.trace();
-    assert!(child.marked());
-  }
-
-  #[kani::proof]
-  #[kani::stub(<ObjectRef as Trace>::trace, shallow)]
-  fn o05_1_method() {
-    let (recv, fun) = (fresh_box(), fresh_box());
-    let parent = Method::new(Value::from(recv), Value::from(fun));
-    parent.trace();
-    assert!(recv.marked(), "the bound receiver is traced");
-    assert!(fun.marked(), "the method is traced");
-  }
-
-  /// a managed object's own reference: marks the header, then traces the payload
-  #[kani::proof]
-  #[kani::stub(<ObjectRef as Trace>::trace, shallow)]
-  fn o05_1_objref_marks_self_and_payload() {
-    let child = fresh_box();
-    let parent = LyBox::new(Value::from(child)).alloc();
-    let _leak = ManuallyDrop::new(parent.handle);
-    let p = parent.reference;
-    assert!(!p.marked());
-    p.trace();
-    assert!(p.marked() && child.marked());
-    // a second trace of a marked object does nothing more (termination on cycles)
-    p.trace();
-    assert!(p.marked());
-  }
-
-  #[kani::proof]
-  #[kani::unwind(4)]
-  #[kani::stub(<ObjectRef as Trace>::trace, shallow)]
-  fn o05_1_tuple() {
-    let (a, b) = (fresh_box(), fresh_box());
-    let n: usize = kani::any();
-    kani::assume(n <= 2);
-    let vals = [Value::from(a), Value::from(b)];
-    let t = (&vals[..n]).alloc();
-    let _leak = ManuallyDrop::new(t.handle);
-    let tuple: Tuple = t.reference;
-    tuple.trace();
-    assert!(n < 1 || a.marked());
-    assert!(n < 2 || b.marked());
-  }
+  // O-05.1 (a kind's trace body reaches EVERY child) is NOT decided here: every child is held as a `Value`, and CBMC loses
+  // pointer provenance when an ObjectRef is stored in the Value enum (f64 / pointer overlay) and read back — a harness
+  // `let v = Value::Obj(o); if let Value::Obj(o2) = v { assert!(!o2.marked()) }` fails on a fresh object. Tool limit, see DESIGN.md.
 
   // ---- O-05.2: the dispatch sends every kind to its own trace body, exactly once, and stops at marked objects ----
   static mut FLAGS: [u8; 13] = [0; 13];
